@@ -530,8 +530,11 @@ class Layout:
 LIBC = {'strlen','tolower','toupper','isxdigit','isdigit','isalpha','isalnum','isspace','isprint','isupper','islower','bcmp','memcmp','memchr','strchr','strcmp','strncmp','strtoull','strtoll','strtol','strtoul','strtod','__errno_location','pow','abs','strstr','strrchr','abort','exit','read','write','isalnum','isspace','memrchr','strtof','strtold'}
 
 
+AUTO_LL = set()   # C library functions that are only declared in the module: emitted as ll_<name> (defined in stubs.h or left undefined)
+
+
 def cname(n):
-    if n[0] == '@' and n[1:] in LIBC:
+    if n[0] == '@' and (n[1:] in LIBC or n[1:] in AUTO_LL):
         return 'll_' + n[1:]
     """LLVM name (%x / @x) -> C identifier"""
     pre = 'v_' if n[0] == '%' else 'g_' if n[1:2].isdigit() or n[1] == '.' or n[1] == '"' else ''
@@ -1659,6 +1662,13 @@ class FnEmitter:
             ct = E.ctype(('int', w))
             cty = ct if sg == 'u' else E.sctype(('int', w))
             return ['{ %s r_; %s.f1 = __builtin_%s_overflow((%s)%s, (%s)%s, &r_); %s.f0 = (%s)r_; }' % (cty, d, o, cty, argv[0], cty, argv[1], d, ct)]
+        m2 = re.match(r'fsh([lr])\.i(\d+)', n)
+        if m2:
+            w = int(m2.group(2)); ct = E.ctype(('int', w))
+            sh = '((%s) %% %d)' % (argv[2], w)
+            if m2.group(1) == 'l':
+                return ['%s = (%s)(%s == 0 ? %s : (((%s)%s << %s) | ((%s)%s >> (%d - %s))));' % (d, ct, sh, argv[0], ct, argv[0], sh, ct, argv[1], w, sh)]
+            return ['%s = (%s)(%s == 0 ? %s : (((%s)%s >> %s) | ((%s)%s << (%d - %s))));' % (d, ct, sh, argv[1], ct, argv[1], sh, ct, argv[0], w, sh)]
         if n == 'trap':
             return ['LL_TRAP();']
         if n.startswith('stacksave') or n.startswith('stackrestore'):
@@ -1669,6 +1679,9 @@ class FnEmitter:
 def main():
     src = open(sys.argv[1]).read()
     m = parse_module(src)
+    for dn in m.decls:
+        if dn not in m.funcs and re.fullmatch(r'@[a-z][a-z0-9_]*', dn) and not dn.startswith('@llvm'):
+            AUTO_LL.add(dn[1:])
     argv = sys.argv[3:]
     exports = [a[7:] for a in argv if a.startswith('--type=')]
     cuts = set('@' + a[6:] for a in argv if a.startswith('--cut='))
